@@ -1,6 +1,6 @@
 """C18: deterministic matrix of schema shapes judged next to the seeded generator (same oracle, vf/props/c18.py judge()).
 
-Two families, independent of the seed (so every quick run sees every shape):
+Three families, independent of the seed (so every quick run sees every shape):
 
   A. defined-type CHAINS   TYPE ch1 = <root>; TYPE ch2 = ch1; ... TYPE chL = ch(L-1);   L = 1..4
      root in: every simple type, aggregates (LIST/SET/BAG/ARRAY, with and without bounds, of simple / defined / entity elements,
@@ -18,8 +18,24 @@ Two families, independent of the seed (so every quick run sees every shape):
      attributes / with only inverse / with only derived attributes, of two supertypes, in the middle of a chain, two levels deep.
      Oracle: module compiles and imports, the class exists, direct bases and constructor parameters as declared.
 
-One schema per shape, so a module that does not compile is attributed to one shape.
+  C. inheritance LATTICES   ENTITY t SUBTYPE OF (<2, 3 or 4 direct supertypes>) in EVERY declaration order (all permutations),
+     where the direct supertypes are
+       unrelated roots | unrelated with different inheritance depths | a supertype together with its own subtype / grandchild /
+       great-grandchild (related pairwise, through a chain of 2 or 3 levels) | a whole chain a <- b <- c (<- d) named at once |
+       two related pairs | related ones next to unrelated ones (so every permutation puts the related ones adjacent AND separated,
+       ancestor first AND descendant first) | the legs of a diamond (equal and unequal legs), the legs plus the apex, the legs plus
+       unrelated ones, a full diamond a,b,c,d
+     x variant: 'bare' (no attribute anywhere, t declared first) | 'attrs' (every entity one explicit attribute of a type that differs
+       from its neighbours', t declared last, plus u SUBTYPE OF (t)).
+     Oracle: module compiles AND IMPORTS (Python must find a method resolution order), every entity class exists, direct bases as
+     declared (when Python cannot take the declared order - a supertype named before its own subtype - any order of the declared
+     supertypes), the entity classes in each __mro__ are exactly the declared ancestors, constructor parameters in Part 21 order,
+     and an instance of every entity is constructed from its inherited-then-own values and read back.
+
+One schema per shape, so a module that does not compile or import is attributed to one shape.
 """
+import itertools
+
 from . import model as M
 
 SIMPLE_ROOTS = ['STRING', 'REAL', 'INTEGER', 'BOOLEAN', 'NUMBER', 'LOGICAL', 'BINARY']
@@ -185,5 +201,91 @@ def entities():
     return [entity_schema(i, *a) for i, a in enumerate(out)]
 
 
+# ------------------------------------------------------------------------------------------------ C. inheritance lattices
+# (pattern name, background [(entity, [supertypes])] in declaration order, direct supertypes of t in their canonical order)
+LATTICES = [
+    # ---- two direct supertypes
+    ('2 unrelated roots', [('a', []), ('b', [])], ['a', 'b']),
+    ('2 unrelated, depths 1 and 0', [('p0', []), ('p1', ['p0']), ('q', [])], ['p1', 'q']),
+    ('2 unrelated, depths 2 and 1', [('p0', []), ('p1', ['p0']), ('p2', ['p1']), ('q0', []), ('q1', ['q0'])], ['p2', 'q1']),
+    ('2 unrelated of equal depth 1', [('p0', []), ('p1', ['p0']), ('q0', []), ('q1', ['q0'])], ['p1', 'q1']),
+    ('supertype and its subtype', [('a', []), ('b', ['a'])], ['a', 'b']),
+    ('supertype and its grandchild', [('a', []), ('m', ['a']), ('b', ['m'])], ['a', 'b']),
+    ('supertype and its great-grandchild', [('a', []), ('m', ['a']), ('n', ['m']), ('b', ['n'])], ['a', 'b']),
+    ('diamond legs', [('a', []), ('b', ['a']), ('c', ['a'])], ['b', 'c']),
+    ('diamond legs of unequal length', [('a', []), ('b', ['a']), ('m', ['a']), ('c', ['m'])], ['b', 'c']),
+    # ---- three
+    ('3 unrelated roots', [('a', []), ('b', []), ('c', [])], ['a', 'b', 'c']),
+    ('3 unrelated, one deeper', [('p0', []), ('p1', ['p0']), ('q', []), ('r', [])], ['p1', 'q', 'r']),
+    ('supertype, its subtype, an unrelated root', [('a', []), ('b', ['a']), ('x', [])], ['a', 'b', 'x']),
+    ('supertype, its subtype, an unrelated subtype', [('a', []), ('b', ['a']), ('x0', []), ('x', ['x0'])], ['a', 'b', 'x']),
+    ('supertype, its grandchild, an unrelated root', [('a', []), ('m', ['a']), ('b', ['m']), ('x', [])], ['a', 'b', 'x']),
+    ('supertype, its great-grandchild, an unrelated root', [('a', []), ('m', ['a']), ('n', ['m']), ('b', ['n']), ('x', [])], ['a', 'b', 'x']),
+    ('chain of 3 named at once', [('a', []), ('b', ['a']), ('c', ['b'])], ['a', 'b', 'c']),
+    ('diamond legs, an unrelated root', [('a', []), ('b', ['a']), ('c', ['a']), ('x', [])], ['b', 'c', 'x']),
+    ('diamond apex and legs', [('a', []), ('b', ['a']), ('c', ['a'])], ['a', 'b', 'c']),
+    # ---- four
+    ('4 unrelated roots', [('a', []), ('b', []), ('c', []), ('d', [])], ['a', 'b', 'c', 'd']),
+    ('supertype, its subtype, 2 unrelated roots', [('a', []), ('b', ['a']), ('x', []), ('y', [])], ['a', 'b', 'x', 'y']),
+    ('2 pairs supertype and subtype', [('a', []), ('b', ['a']), ('x', []), ('y', ['x'])], ['a', 'b', 'x', 'y']),
+    ('supertype, its grandchild, 2 unrelated roots', [('a', []), ('m', ['a']), ('b', ['m']), ('x', []), ('y', [])], ['a', 'b', 'x', 'y']),
+    ('chain of 3 named at once, an unrelated root', [('a', []), ('b', ['a']), ('c', ['b']), ('x', [])], ['a', 'b', 'c', 'x']),
+    ('chain of 4 named at once', [('a', []), ('b', ['a']), ('c', ['b']), ('d', ['c'])], ['a', 'b', 'c', 'd']),
+    ('diamond legs, 2 unrelated roots', [('a', []), ('b', ['a']), ('c', ['a']), ('x', []), ('y', [])], ['b', 'c', 'x', 'y']),
+    ('full diamond named at once', [('a', []), ('b', ['a']), ('c', ['a']), ('d', ['b', 'c'])], ['a', 'b', 'c', 'd']),
+]
+ATTR_TYPES = [M.INT, M.STR, M.REAL, lambda: M.T('BOOLEAN')]
+
+
+def _related_tags(bg, order):
+    """How the related direct supertypes sit in this declaration order."""
+    sup = dict(bg)
+
+    def anc(n):
+        out = set()
+        for x in sup[n]:
+            out |= {x} | anc(x)
+        return out
+    tags = set()
+    for i, p in enumerate(order):
+        for j in range(i + 1, len(order)):
+            q = order[j]
+            if q in anc(p):
+                rel = 'descendant first'
+            elif p in anc(q):
+                rel = 'ancestor first'
+            elif anc(p) & anc(q):
+                rel = 'common ancestor'
+            else:
+                continue
+            tags.add('%s, %s' % (rel, 'adjacent' if j == i + 1 else 'separated by %d' % (j - i - 1)))
+    return tags or {'none related'}
+
+
+def lattice_schema(idx, pname, bg, order, variant):
+    ents = []
+    for k, (n, sup) in enumerate(bg):
+        ents.append(_ent(n, sup, [('%s_a' % n, ATTR_TYPES[k % 4]())] if variant == 'attrs' else []))
+    if variant == 'attrs':
+        ents.append(_ent('t', order, [('t_a', ATTR_TYPES[len(bg) % 4]()), ('t_b', ATTR_TYPES[(len(bg) + 1) % 4](), True)]))
+        ents.append(_ent('u', ['t'], [('u_a', ATTR_TYPES[(len(bg) + 2) % 4]())]))
+    else:
+        ents.insert(0, _ent('t', order))
+    s = M.Schema('ml%d' % idx, [], ents)
+    s.tags |= {'matrix:lattice', 'matrix:lattice supertypes:' + pname, 'matrix:lattice direct supertypes:%d' % len(order), 'matrix:lattice variant:' + variant}
+    s.tags |= {'matrix:lattice related pair:' + x for x in _related_tags(bg, order)}
+    s.matrix = ('lattice', pname, ','.join(order), variant)
+    return s
+
+
+def lattices():
+    out = []
+    for pname, bg, directs in LATTICES:
+        for order in itertools.permutations(directs):
+            for variant in ('bare', 'attrs'):
+                out.append((pname, bg, list(order), variant))
+    return [lattice_schema(i, *a) for i, a in enumerate(out)]
+
+
 def schemas():
-    return chains() + entities()
+    return chains() + entities() + lattices()
